@@ -696,7 +696,11 @@ def mon_credit(tr, pid='C06', judge_completeness=True):
             if src is None:
                 continue
             evs = [e for e in tr.world.log if e.get('uid') == uid]
+            # (a channel responder that cancels the requester's direction closes that direction only: its own direction
+            # still owes every element that gets credit)
+            other_half_only = ('sub_cancel', 'pub_cancel', 'src_on_cancel')
             disturbed = any(e['ev'] in ('sub_cancel', 'on_error', 'pub_cancel', 'src_on_cancel', 'rr_cancel_call')
+                            and not (spec['k'] == 'ch' and dirn == 'resp' and e['ev'] in other_half_only and e.get('dir') == 'req')
                             for e in evs) or any(e['ev'] == 'hand_end' and e.get('how') == 'error' for e in evs)
             n_els = sum(1 for l in src.get('els', []) if l[0] or l[1])
             observed = sum(1 for e in evs if e['ev'] == 'on_next' and e['dir'] == dirn and e['side'] == cons
